@@ -8,6 +8,7 @@ STAGES = [
     Stage("smoother-thread-limit", "p06_smoother", "plain", {"quick": 60, "thorough": 2000}, offset=2000000, timeout_per_case=120, env={"OMP_THREAD_LIMIT": "2"}),
 ]
 THRESHOLDS = {
+    "reused_object_equals_fresh_object": 1e-10,   # second problem written into the same rhs buffer: swept object vs fresh object, / |x|
     "fixed_point_residual": 1e-11,   # residual of S(x*) per row / (rowsum*||x|| + |f|) / max(1, 1e-3 Rmax/R0)
     "fixed_point_forward": 1e-10,    # ||S(x*)-x*||/||x*||, mild meshes only
     "white_line_residual": 1e-12,   # residual on the last-updated colour after a sweep from any iterate
